@@ -126,11 +126,11 @@ class World:
             id = PrimaryKey(int)
             u = Optional(int, unique=True, lazy=lazy)
             if rel == 'mix':
-                a = Required(A, column='a_id', reverse='bs') if breq else Optional(A, column='a_id', reverse='bs')
+                a = Required(A, column='a_id', reverse='bs', lazy=lazy) if breq else Optional(A, column='a_id', reverse='bs', lazy=lazy)
                 as_ = Set(A, column='a_id', reverse='ls', **setkw)
             elif rel in ('o2m', 'o2o'):
-                a = Required(A, column='a_id') if breq else Optional(A, column='a_id', cascade_delete=True) if childcasc \
-                    else Optional(A, column='a_id')
+                a = Required(A, column='a_id', lazy=lazy) if breq else Optional(A, column='a_id', cascade_delete=True, lazy=lazy) if childcasc \
+                    else Optional(A, column='a_id', lazy=lazy)
             else:
                 as_ = Set(A, column='a_id', **setkw)
 
